@@ -124,6 +124,41 @@ def run(chk):
             chk.violation(rid, s["file"], s["name"], "shared mutable static", "a static with interior mutability (%s) is shared by all runs/threads and is not reviewed"
                           % ty[:80], detail=d, loc="%s:%s" % (s["file"], s["line"]))
 
+    rid = "R14d"
+    chk.rule(rid, "no type reachable from Program / any expression struct has a field with interior mutability (a compiled program carries no run-time state)", floor=200)
+    roots = set()
+    for f in M.functions.values():
+        roots |= set(f["exprs"])
+    for imp in facts.impls_of("compiler::expression::Expression"):
+        roots.add(imp["self"].split("<")[0])
+    roots.add("compiler::program::Program")
+    INNER = re.compile(r"Mutex|RwLock|RefCell|\bCell<|Atomic|UnsafeCell|OnceCell|OnceLock|LazyLock|LazyCell")
+    local_adts = [n for n, a in facts.adts.items() if a.get("local")]
+    seen_adts = set()
+
+    def walk(name, path, depth):
+        if name in seen_adts or depth > 8:
+            return
+        seen_adts.add(name)
+        a = facts.adts.get(name)
+        if not a:
+            return
+        for v in a["variants"]:
+            for fn, ft in zip(v["fields"], v.get("ftys", [])):
+                d = {"type": name, "field": fn, "field_type": ft[:120], "reached_via": path[-3:]}
+                if INNER.search(ft):
+                    chk.instance(rid, d, ok=False)
+                    chk.violation(rid, "src", name, "field `%s` has interior mutability" % fn,
+                                  "%s.%s: %s — state stored inside the compiled program survives Runtime::clear and is shared by all threads running it"
+                                  % (name, fn, ft[:80]), detail=d)
+                else:
+                    chk.instance(rid, d, ok=True)
+                for other in local_adts:
+                    if other != name and other in ft:
+                        walk(other, path + ["%s.%s" % (name, fn)], depth + 1)
+    for r in sorted(roots):
+        walk(r, [], 0)
+
     rid = "R14c"
     chk.rule(rid, "every HashMap/HashSet iteration site outside the CLI is reviewed order-insensitive, or sorted before use", floor=8)
     for i in facts.index:
